@@ -210,11 +210,17 @@ def main(tier: str) -> int:
         elif kind == 3:  # Sattolo
             arr = list(range(n))
             numba_seed(s)
-            out = [int(x) for x in sattolo_shuffle(np.array(arr, dtype=np.int64))]
+            held = np.array(arr, dtype=np.int64)          # the array the caller keeps holding
+            out = [int(x) for x in sattolo_shuffle(held)]
             chk.count("sattolo")
             if not (sorted(out) == arr and is_single_cycle(out)):
                 chk.fail("sattolo_shuffle did not return a cyclic permutation of its input",
                          {"n": n, "seed": s, "out": out}, {"fn": "sattolo_shuffle"})
+            elif [int(x) for x in held] != arr:
+                chk.fail("sattolo_shuffle did not return a cyclic permutation of its input",
+                         {"n": n, "seed": s, "out": out, "input_after_the_call": [int(x) for x in held],
+                          "scenario": "the caller's array was overwritten: relative to the array the caller holds the result is not a cyclic permutation"},
+                         {"fn": "sattolo_shuffle"})
             chk.case(("sat", tuple(out)))
             if mirror:
                 us = rs_u.random_sample(n - 1)
@@ -224,7 +230,11 @@ def main(tier: str) -> int:
             ncols = 1 + s % 3
             rows2 = np.array([[10 * r + c for c in range(ncols)] for r in range(n)], dtype=np.float64 if s % 2 else np.int64)
             numba_seed(s)
-            out2 = sattolo_shuffle_2d(rows2.copy())
+            held2 = rows2.copy()
+            out2 = sattolo_shuffle_2d(held2)
+            if not np.array_equal(held2, rows2):
+                chk.fail("sattolo_shuffle_2d did not return a cyclic permutation of the rows of its input",
+                         {"n_rows": n, "n_cols": ncols, "seed": s, "scenario": "the caller's array was overwritten"}, {"fn": "sattolo_shuffle_2d"})
             perm2 = [int(round(float(r[0]))) // 10 for r in out2]
             chk.count("sattolo_2d")
             intact = all([float(v) for v in out2[k]] == [float(v) for v in rows2[perm2[k]]] for k in range(n)) if sorted(perm2) == arr else False
